@@ -27,11 +27,11 @@ K(a, b, c) == a * 2000 + b * 40 + c
 (* Pools                                                                   *)
 (***************************************************************************)
 \* (names that merely START with a keyword -- notes, indexes_count, tables -- are ordinary bare identifiers)
-TableNames == <<"users", "orders", "order items", "table", "~u00dc~n~u00ef~", "Products", "t_1", "note", "ref", "notes", "tables", "Users", "123", "a  b", "t[1]">>
+TableNames == <<"users", "Users", "orders", "order items", "table", "~u00dc~n~u00ef~", "Products", "t_1", "note", "ref", "notes", "tables", "123", "a  b", "t[1]", "products">>
 SchemaPool == <<"", "", "", "s1", "my schema", "public", "s1">>
 AliasPool  == <<"u", "O", "oi", "my alias", "a5", "P", "t1a", "n8", "r9">>
-ColNames   == <<"id", "name", "user id", "note", "type", "~u540d~~u524d~", "Ref", "c_2", "default", "pk", "notes", "indexes_count", "ref_id", "ID", "1st", "0", "tags[]", "a^b", "`code`">>
-EnumNames  == <<"status", "order status", "enum", "~u00e9~tat", "e^2">>
+ColNames   == <<"id", "ID", "name", "user id", "note", "Note", "type", "~u540d~~u524d~", "Ref", "c_2", "default", "pk", "notes", "indexes_count", "ref_id", "1st", "0", "tags[]", "a^b", "`code`", "Id">>
+EnumNames  == <<"status", "Status", "order status", "enum", "~u00e9~tat", "e^2">>
 EnumItems  == <<"new", "in progress", "done", "~u2713~ ok", "null", "x-1", "notes", "0", "New">>
 PlainTypes == << [schema |-> "", name |-> "int", suffix |-> ""],
                  [schema |-> "", name |-> "varchar", suffix |-> "(255)"],
@@ -149,7 +149,7 @@ RandIdx(seed, t, x) ==
    note |-> Maybe(seed, K(t, 10 + x, 14), 25, Texts), comment |-> ""]
 
 RandTable(seed, t, withProps) ==
-  LET ni == IF Coin(seed, K(t, 0, 5), 40) THEN Num(seed, K(t, 0, 6), 1, 2) ELSE 0 IN
+  LET ni == IF Coin(seed, K(t, 0, 5), 40) THEN Num(seed, K(t, 0, 6), 1, 3) ELSE 0 IN      \* (3: an index can stand BETWEEN two others)
   [d |-> "table", schema |-> TSchema(seed, t), name |-> TName(seed, t), alias |-> TAlias(seed, t),
    color |-> Pick(seed, K(t, 0, 7), Colors), note |-> Maybe(seed, K(t, 0, 8), 35, Texts),
    props |-> IF withProps THEN RandProps(seed, K(t, 0, 10)) ELSE <<>>, comment |-> "",
@@ -169,7 +169,7 @@ RandRef(seed, r) ==
       two == Coin(seed, K(25 + r, 0, 3), 25) /\ NCols(seed, t1) >= 2 /\ NCols(seed, t2) >= 2
       c1 == Num(seed, K(25 + r, 0, 4), 1, NCols(seed, t1))
       c2 == Num(seed, K(25 + r, 0, 5), 1, NCols(seed, t2))
-  IN [d |-> "ref", name |-> Maybe(seed, K(25 + r, 0, 6), 35, <<"fk_1", "my fk", "Ref", "fk^2">>),
+  IN [d |-> "ref", name |-> Maybe(seed, K(25 + r, 0, 6), 35, <<"fk_1", "my fk", "Ref", "fk^2", "fk{1}", "{x}">>),
       left |-> ColAddr(seed, K(25 + r, 0, 8), t1, IF two THEN <<1, 2>> ELSE <<c1>>),
       type |-> Pick(seed, K(25 + r, 0, 9), RefKinds),
       right |-> ColAddr(seed, K(25 + r, 0, 10), t2, IF two THEN <<2, 1>> ELSE <<c2>>),
@@ -228,8 +228,8 @@ RandDoc(seed) == RandDocP(seed, FALSE)
 (* is written (above or trailing, // or block) is a matter of form.        *)
 (***************************************************************************)
 CommentTexts == <<"plain comment", "it's \"quoted\"", "{ braces } [x] (y)", "Table x {", "'); DROP TABLE t; --",
-                  "a * b / c", "note: 'x'", "~u00fc~ber ~u4e2d~", "path C:\\data\\", "two\nlines", "Ref: a.b > c.d\nEnum e {\n}", "// nested", "#1">>
-OneLineComments == SelectSeq(CommentTexts, LAMBDA t : t \notin {"two\nlines", "Ref: a.b > c.d\nEnum e {\n}"})
+                  "a * b / c", "note: 'x'", "~u00fc~ber ~u4e2d~", "path C:\\data\\", "two\nlines", "Ref: a.b > c.d\nEnum e {\n}", "// nested", "#1", "para 1\n\npara 2">>
+OneLineComments == SelectSeq(CommentTexts, LAMBDA t : t \notin {"two\nlines", "Ref: a.b > c.d\nEnum e {\n}", "para 1\n\npara 2"})
 \* (equal twins again: in a Twins document every comment that is present is the same one-line text)
 MaybeC(seed, key, pool) == IF Twins(seed) THEN (IF Coin(seed, key, 70) THEN Pick(seed, 18, OneLineComments) ELSE "")
                            ELSE IF Coin(seed, key, 45) THEN Pick(seed, key + 1, pool) ELSE ""
